@@ -50,6 +50,7 @@ type World struct {
 	tmu     sync.Mutex
 	tracked map[uint32]bool // offsets the harness has addressed individually
 	Bulk    bool            // a bulk prologue step is running: loggers summarise
+	Par     bool            // real-parallelism family: the in-latch logger also logs the release of the latch
 	Blobs   map[string][]byte
 	snapOf  map[string]string // actor -> collection it is snapshotting
 }
@@ -893,8 +894,14 @@ func (l *RecLogger) Append(cm commit.Commit) error {
 			ops[u.Column] = dec
 		}
 	}
-	w.T.Log(Ev{"e": "apply", "t": w.T.Actor(), "c": c.Name, "b": int(cm.Chunk), "id": cm.ID, "chid": chid,
+	actor := w.T.Actor()
+	w.T.Log(Ev{"e": "apply", "t": actor, "c": c.Name, "b": int(cm.Chunk), "id": cm.ID, "chid": chid,
 		"ops": ops, "fired": c.takeFired(), "runs": runs})
+	if w.Par {
+		// real parallelism (no scheduler, no hook): the release of the latch is logged here, still inside it, so that
+		// the trace keeps the apply order of each block; nothing of this transaction touches the block after this point
+		w.T.Log(Ev{"e": "after", "t": actor})
+	}
 	if l.Gate != nil {
 		l.Gate(cm)
 	}
